@@ -127,7 +127,8 @@ pub fn run(args: &[String]) -> i32 {
                     let union: std::collections::BTreeSet<_> = kc.union(&kg).cloned().collect();
                     println!("corpus kinds {} svgen kinds {} union {} only-svgen {} only-corpus {}", kc.len(), kg.len(), union.len(), kg.difference(&kc).count(), kc.difference(&kg).count());
                     let only_corpus: Vec<_> = kc.difference(&kg).cloned().collect();
-                    println!("only in corpus (first 80): {:?}", &only_corpus[..only_corpus.len().min(80)]);
+                    let lim = if std::env::var("DEV_DUMP").is_ok() { usize::MAX } else { 80 };
+                    println!("only in corpus (first {}): {:?}", lim.min(only_corpus.len()), &only_corpus[..only_corpus.len().min(lim)]);
                 })
                 .unwrap();
             handle.join().unwrap();
@@ -299,6 +300,36 @@ pub fn run(args: &[String]) -> i32 {
                     }
                 }
             }
+            0
+        }
+        Some("probe") => {
+            // probe <file> [kind...]: cases separated by lines "----"; prints acceptance (strict mode) per case and, if
+            // kinds are named, which of them occur in the tree
+            let text = std::fs::read_to_string(&args[1]).unwrap();
+            let want: Vec<String> = args[2..].to_vec();
+            let handle = std::thread::Builder::new()
+                .stack_size(1 << 30)
+                .spawn(move || {
+                    for case in text.split("\n----\n") {
+                        let case = format!("{}\n", case.trim_end());
+                        let head: String = case.replace('\n', " ").chars().take(100).collect();
+                        match sv::parse_text(sv::Grammar::Sv, &case, false) {
+                            Ok((tree, _)) => {
+                                let mut have: std::collections::BTreeSet<String> = Default::default();
+                                for n in &tree {
+                                    let k = sv::kind(&n);
+                                    if want.contains(&k) {
+                                        have.insert(k);
+                                    }
+                                }
+                                println!("OK  {} {:?}", head, have);
+                            }
+                            Err(e) => println!("ERR {} :: {}", head, sv::err_kind(&e)),
+                        }
+                    }
+                })
+                .unwrap();
+            handle.join().unwrap();
             0
         }
         Some("parsek") => {
